@@ -309,6 +309,7 @@ struct World {
     max_ttl: u32,
     items: std::vec::Vec<std::string::String>,
     trapped_reads: u64,
+    real: bool, // the collaborators are real contracts (stack family): no mock tables, no mock logs
 }
 
 impl World {
@@ -328,7 +329,7 @@ impl World {
         e.as_contract(&cmp, || e.storage().instance().set(&symbol_short!("tok"), &tok));
         let addrs: std::vec::Vec<Address> = (0..nu).map(|_| Address::generate(&e)).collect();
         let m = Mirror { bal: vec![0; nu], frz: vec![0; nu], flag: vec![false; nu], allow: vec![0; nu * nu], ..Default::default() };
-        World { e, tok, idv, cmp, addrs, m, min_temp, max_ttl, items: vec![], trapped_reads: 0 }
+        World { e, tok, idv, cmp, addrs, m, min_temp, max_ttl, items: vec![], trapped_reads: 0, real: false }
     }
     fn nu(&self) -> usize { self.addrs.len() }
     fn idx(&self, a: &Address) -> u64 {
@@ -420,10 +421,10 @@ impl World {
         let none: Vec<Val> = Vec::new(e);
         let cmp_set = self.try_get::<Address>("compliance", none.clone()).is_some();
         let idv_set = self.try_get::<Address>("identity_verifier", none).is_some();
-        let ilog: Vec<(u32, Address)> =
-            e.as_contract(&self.idv, || e.storage().instance().get(&symbol_short!("log")).unwrap_or(Vec::new(e)));
-        let clog: Vec<(u32, Address, Address, i128, bool)> =
-            e.as_contract(&self.cmp, || e.storage().instance().get(&symbol_short!("log")).unwrap_or(Vec::new(e)));
+        let ilog: Vec<(u32, Address)> = if self.real { Vec::new(e) } else {
+            e.as_contract(&self.idv, || e.storage().instance().get(&symbol_short!("log")).unwrap_or(Vec::new(e))) };
+        let clog: Vec<(u32, Address, Address, i128, bool)> = if self.real { Vec::new(e) } else {
+            e.as_contract(&self.cmp, || e.storage().instance().get(&symbol_short!("log")).unwrap_or(Vec::new(e))) };
         let accts: std::vec::Vec<_> = (0..nu).map(|i| format!("({}, {}, {})", z(m.bal[i]), z(m.frz[i]), b(m.flag[i]))).collect();
         let allow: std::vec::Vec<_> = m.allow.iter().map(|&v| z(v)).collect();
         let il: std::vec::Vec<_> = ilog.iter().map(|(k, a)| {
@@ -446,6 +447,17 @@ impl World {
     /// execute one call with the exact authorisation set `auths` and the collaborators' answers `orc`
     fn exec(&mut self, out: &mut Out, op: &Op, auths: &[usize], orc: &Orc) -> bool {
         self.set_oracle(orc);
+        let (ok, outcome) = self.run_op(op, auths);
+        let obs = self.observe();
+        let au: std::vec::Vec<_> = auths.iter().map(|&i| n(i as u64)).collect();
+        let call = format!("(mkCall ({}) {} {})", op.coq(), list(&au), orc.coq());
+        out.case(&format!("{}/{}", op.kind(), if ok { "ok" } else { "fail" }), &call);
+        self.items.push(format!("I {} {} {}", call, outcome, obs));
+        ok
+    }
+
+    /// invoke the entry point with exactly the authorisations of `auths`
+    fn run_op(&mut self, op: &Op, auths: &[usize]) -> (bool, std::string::String) {
         let (ok, outcome) = match self.invocation(op) {
             None => {
                 let k = if let Op::Advance(k) = op { *k } else { 0 };
@@ -476,12 +488,7 @@ impl World {
         if ok {
             match op { Op::SetCompliance(_) => self.m.cmp_set = true, Op::SetIdv(_) => self.m.idv_set = true, _ => {} }
         }
-        let obs = self.observe();
-        let au: std::vec::Vec<_> = auths.iter().map(|&i| n(i as u64)).collect();
-        let call = format!("(mkCall ({}) {} {})", op.coq(), list(&au), orc.coq());
-        out.case(&format!("{}/{}", op.kind(), if ok { "ok" } else { "fail" }), &call);
-        self.items.push(format!("I {} {} {}", call, outcome, obs));
-        ok
+        (ok, outcome)
     }
 
     /// call with the needed signer and fully open collaborators
@@ -1061,6 +1068,7 @@ mod cmpl {
         pub mods: std::vec::Vec<std::vec::Vec<usize>>, // mirror of the hook lists
         pub bound: std::vec::Vec<bool>,
         pub trapped_reads: u64,
+        pub last: (std::string::String, std::string::String, std::string::String), // call, outcome, observation of the last call
     }
 
     impl CWorld {
@@ -1084,9 +1092,29 @@ mod cmpl {
                 e.as_contract(&m, || e.storage().instance().set(&symbol_short!("rec"), &rec));
                 m
             }).collect();
-            CWorld { e, cmp, rec, parties, tokens, modules, items: vec![], mods: vec![vec![]; 5], bound: vec![false; 3], trapped_reads: 0 }
+            CWorld { e, cmp, rec, parties, tokens, modules, items: vec![], mods: vec![vec![]; 5], bound: vec![false; 3], trapped_reads: 0, last: Default::default() }
         }
-        fn num(&self, a: &Address) -> u64 {
+        /// the compliance contract, its recorder and `nmods` modules inside an existing Env, for one token
+        pub fn in_env(e: &Env, parties: std::vec::Vec<Address>, token: Address, nmods: usize) -> CWorld {
+            let cmp = e.register(Cmp, ());
+            let rec = e.register(Rec, ());
+            let modules: std::vec::Vec<Address> = (0..nmods).map(|_| {
+                let m = e.register(Mod, ());
+                e.as_contract(&m, || e.storage().instance().set(&symbol_short!("rec"), &rec));
+                m
+            }).collect();
+            CWorld { e: e.clone(), cmp, rec, parties, tokens: vec![token], modules, items: vec![], mods: vec![vec![]; 5], bound: vec![false; 1], trapped_reads: 0, last: Default::default() }
+        }
+        /// the modules' answers for the next call + an empty recorder
+        pub fn prepare(&self, deny: &[usize]) {
+            let e = &self.e;
+            for (i, m) in self.modules.iter().enumerate() {
+                let d = deny.contains(&i);
+                e.as_contract(m, || e.storage().instance().set(&symbol_short!("deny"), &d));
+            }
+            e.as_contract(&self.rec, || e.storage().instance().set(&symbol_short!("log"), &Vec::<(Address, u32, Address, Address, i128, Address)>::new(e)));
+        }
+        pub fn num(&self, a: &Address) -> u64 {
             if let Some(i) = self.parties.iter().position(|x| x == a) { return PARTY0 + i as u64; }
             if let Some(i) = self.tokens.iter().position(|x| x == a) { return TOK0 + i as u64; }
             if let Some(i) = self.modules.iter().position(|x| x == a) { return MOD0 + i as u64; }
@@ -1094,7 +1122,7 @@ mod cmpl {
         }
         fn addr(&self, w: Who) -> Address { match w { Who::Party(i) => self.parties[i].clone(), Who::Token(i) => self.tokens[i].clone() } }
 
-        fn observe(&mut self) -> std::string::String {
+        pub fn observe(&mut self) -> std::string::String {
             let e = &self.e.clone();
             let mut lists: std::vec::Vec<std::string::String> = vec![];
             let tv: Vec<Address> = Vec::from_slice(e, &self.tokens);
@@ -1145,6 +1173,7 @@ mod cmpl {
                 let obs = self.observe();
                 let call = format!("(mkCC ({}) [] [])", op.coq());
                 out.case("c.advance/ok", &call);
+                self.last = (call.clone(), "(Ok None)".to_string(), obs.clone());
                 self.items.push(format!("CI {} (Ok None) {}", call, obs));
                 return true;
             }
@@ -1200,6 +1229,7 @@ mod cmpl {
             let call = format!("(mkCC ({}) {} {})", op.coq(), list(&au), list(&dn));
             let tag = if !ok { "fail" } else if outcome.contains("true") { "true" } else if outcome.contains("false") { "false" } else { "ok" };
             out.case(&format!("{}/{}", op.kind(), tag), &call);
+            self.last = (call.clone(), outcome.clone(), obs.clone());
             self.items.push(format!("CI {} {} {}", call, outcome, obs));
             ok
         }
@@ -1762,8 +1792,470 @@ mod idl {
     }
 }
 
+// ================================================================================================
+// fourth family: THE WHOLE STACK from library code - the token (rwa/storage.rs) in front of the real
+// compliance contract (compliance/storage.rs + token_binder, harness modules) and the real identity
+// verifier (identity_verifier/storage.rs) over the real claim-topics-and-issuers registry, identity
+// registry storage and identity-claims contracts, with a harness claim issuer (answer table).
+// ================================================================================================
+mod stack {
+    use super::*;
+    use super::cmpl::{COp, CWorld, Who, MOD0, TOK0};
+    use super::idl::{ClaimRec, IWorld, Idv, ACC0, IDN0, ISS0};
+    use soroban_sdk::{Bytes, BytesN};
+    use stellar_tokens::rwa::claim_issuer::ClaimIssuer;
+    use stellar_tokens::rwa::claim_topics_and_issuers::storage as cti;
+    use stellar_tokens::rwa::identity_claims::{self as idc, Claim};
+    use stellar_tokens::rwa::identity_registry_storage::{
+        self as irs, CountryData, CountryRelation, IdentityType, IndividualCountryRelation,
+    };
+    use stellar_tokens::rwa::identity_verifier::storage as ivs;
+
+    #[contract]
+    pub struct CtiC;
+    #[contractimpl]
+    impl CtiC {
+        pub fn add_claim_topic(e: &Env, t: u32) { cti::add_claim_topic(e, t) }
+        pub fn remove_claim_topic(e: &Env, t: u32) { cti::remove_claim_topic(e, t) }
+        pub fn add_trusted_issuer(e: &Env, i: Address, ts: Vec<u32>) { cti::add_trusted_issuer(e, &i, &ts) }
+        pub fn remove_trusted_issuer(e: &Env, i: Address) { cti::remove_trusted_issuer(e, &i) }
+        pub fn update_issuer_claim_topics(e: &Env, i: Address, ts: Vec<u32>) { cti::update_issuer_claim_topics(e, &i, &ts) }
+        pub fn get_claim_topics_and_issuers(e: &Env) -> Map<u32, Vec<Address>> { cti::get_claim_topics_and_issuers(e) }
+    }
+
+    #[contract]
+    pub struct IrsC;
+    #[contractimpl]
+    impl IrsC {
+        pub fn add_identity(e: &Env, account: Address, identity: Address) {
+            let mut cs: Vec<CountryData> = Vec::new(e);
+            cs.push_back(CountryData { country: CountryRelation::Individual(IndividualCountryRelation::Residence(840)), metadata: None });
+            irs::add_identity(e, &account, &identity, IdentityType::Individual, &cs)
+        }
+        pub fn modify_identity(e: &Env, account: Address, identity: Address) { irs::modify_identity(e, &account, &identity) }
+        pub fn remove_identity(e: &Env, account: Address) { irs::remove_identity(e, &account) }
+        pub fn recover_identity(e: &Env, old: Address, new: Address) { irs::recover_identity(e, &old, &new) }
+        pub fn stored_identity(e: &Env, account: Address) -> Address { irs::stored_identity(e, &account) }
+        pub fn get_recovered_to(e: &Env, old: Address) -> Option<Address> { irs::get_recovered_to(e, &old) }
+    }
+
+    /// an identity contract: the library's identity_claims storage
+    #[contract]
+    pub struct IdentC;
+    #[contractimpl]
+    impl IdentC {
+        pub fn add_claim(e: &Env, topic: u32, issuer: Address) -> BytesN<32> {
+            idc::add_claim(e, topic, 1, &issuer, &Bytes::from_array(e, &[9, 9]), &Bytes::from_array(e, &[7]), &String::from_str(e, "u"))
+        }
+        pub fn remove_claim(e: &Env, claim_id: BytesN<32>) { idc::remove_claim(e, &claim_id) }
+        pub fn get_claim(e: &Env, claim_id: BytesN<32>) -> Claim { idc::get_claim(e, &claim_id) }
+        pub fn get_claim_ids_by_topic(e: &Env, topic: u32) -> Vec<BytesN<32>> { idc::get_claim_ids_by_topic(e, topic) }
+    }
+
+    /// the harness claim issuer: an answer table - accepts every claim except the revoked (identity, topic) pairs
+    #[contract]
+    pub struct IssuerC;
+    #[contractimpl]
+    impl ClaimIssuer for IssuerC {
+        fn is_claim_valid(e: &Env, identity: Address, claim_topic: u32, _scheme: u32, _sig_data: Bytes, _claim_data: Bytes) {
+            let rev: Map<(Address, u32), bool> = e.storage().instance().get(&symbol_short!("rev")).unwrap_or(Map::new(e));
+            if rev.get((identity, claim_topic)).unwrap_or(false) {
+                panic_with_error!(e, RWAError::IdentityVerificationFailed)
+            }
+        }
+    }
+    #[contractimpl]
+    impl IssuerC {
+        pub fn set_revoked(e: &Env, identity: Address, topic: u32, revoked: bool) {
+            let mut rev: Map<(Address, u32), bool> = e.storage().instance().get(&symbol_short!("rev")).unwrap_or(Map::new(e));
+            rev.set((identity, topic), revoked);
+            e.storage().instance().set(&symbol_short!("rev"), &rev);
+        }
+    }
+
+    /// an edit of one of the identity registries
+    #[derive(Clone, Debug)]
+    pub enum Edit {
+        AddTopic(u32), RemoveTopic(u32),
+        AddIssuer(usize, std::vec::Vec<u32>), RemoveIssuer(usize), UpdateIssuer(usize, std::vec::Vec<u32>),
+        AddIdentity(usize, usize), RemoveIdentity(usize), ModifyIdentity(usize, usize), RecoverIdentity(usize, usize),
+        AddClaim(usize, u32, usize), RemoveClaim(usize, u32, usize), // identity, topic, issuer
+        Revoke(usize, usize, u32, bool),                              // issuer, identity, topic, revoked
+    }
+    const TOPICS: [u32; 3] = [1, 2, 3];
+
+    pub struct SWorld {
+        pub w: World,
+        pub c: CWorld,
+        pub cti: Address,
+        pub irs: Address,
+        pub idents: std::vec::Vec<Address>,
+        pub issuers: std::vec::Vec<Address>,
+        pub world: IWorld,       // the registry state as read through the getters
+        pub stale: bool,         // must be read again before the next token call
+        pub items: std::vec::Vec<std::string::String>,
+    }
+
+    impl SWorld {
+        pub fn new(min_temp: u32, max_ttl: u32) -> SWorld {
+            let mut w = World::new(4, min_temp, max_ttl);
+            w.real = true;
+            let e = w.e.clone();
+            let c = CWorld::in_env(&e, w.addrs.clone(), w.tok.clone(), 3);
+            let idv = e.register(Idv, ());
+            let cti = e.register(CtiC, ());
+            let irs_ = e.register(IrsC, ());
+            e.as_contract(&idv, || {
+                ivs::set_claim_topics_and_issuers(&e, &cti);
+                ivs::set_identity_registry_storage(&e, &irs_);
+            });
+            let idents = (0..3).map(|_| e.register(IdentC, ())).collect();
+            let issuers = (0..2).map(|_| e.register(IssuerC, ())).collect();
+            // the token is pointed at the real collaborators by its own set_compliance / set_identity_verifier calls
+            w.cmp = c.cmp.clone();
+            w.idv = idv;
+            SWorld { w, c, cti, irs: irs_, idents, issuers, world: IWorld::default(), stale: true, items: vec![] }
+        }
+
+        fn try_call(&self, contract: &Address, f: &str, args: Vec<Val>) -> Option<Val> {
+            match self.w.e.try_invoke_contract::<Val, soroban_sdk::Error>(contract, &Symbol::new(&self.w.e, f), args) {
+                Ok(Ok(v)) => Some(v),
+                _ => None,
+            }
+        }
+
+        /// read the whole registry state through the public getters (try-calls)
+        fn read_world(&mut self) {
+            let e = self.w.e.clone();
+            let mut iw = IWorld::default();
+            for (a, acc) in self.w.addrs.iter().enumerate() {
+                if let Some(v) = self.try_call(&self.irs, "stored_identity", (acc.clone(),).into_val(&e)) {
+                    if let Ok(idn) = Address::try_from_val(&e, &v) {
+                        let k = self.idents.iter().position(|x| *x == idn).unwrap_or(99);
+                        iw.ident.push((a, k));
+                    }
+                }
+                if let Some(v) = self.try_call(&self.irs, "get_recovered_to", (acc.clone(),).into_val(&e)) {
+                    if let Ok(Some(t)) = Option::<Address>::try_from_val(&e, &v) {
+                        let k = self.w.addrs.iter().position(|x| *x == t).unwrap_or(99);
+                        iw.recovered.push((a, k));
+                    }
+                }
+            }
+            if let Some(v) = self.try_call(&self.cti, "get_claim_topics_and_issuers", Vec::new(&e)) {
+                if let Ok(m) = Map::<u32, Vec<Address>>::try_from_val(&e, &v) {
+                    for (t, is) in m.iter() {
+                        let l: std::vec::Vec<usize> = is.iter().map(|i| self.issuers.iter().position(|x| *x == i).unwrap_or(99)).collect();
+                        iw.topics.push((t, l));
+                    }
+                }
+            }
+            for (k, idn) in self.idents.iter().enumerate() {
+                let mut cs: std::vec::Vec<ClaimRec> = vec![];
+                for &t in TOPICS.iter() {
+                    let ids = match self.try_call(idn, "get_claim_ids_by_topic", (t,).into_val(&e)) {
+                        Some(v) => Vec::<BytesN<32>>::try_from_val(&e, &v).unwrap_or(Vec::new(&e)),
+                        None => Vec::new(&e),
+                    };
+                    for id in ids.iter() {
+                        let claim = match self.try_call(idn, "get_claim", (id.clone(),).into_val(&e)) {
+                            Some(v) => match Claim::try_from_val(&e, &v) { Ok(c) => c, Err(_) => continue },
+                            None => continue,
+                        };
+                        // which (issuer, topic) does this id stand for
+                        let mut key = None;
+                        for (i, is) in self.issuers.iter().enumerate() {
+                            for &t2 in TOPICS.iter() { if idc::generate_claim_id(&e, is, t2) == id { key = Some((i, t2)); } }
+                        }
+                        let (ki, kt) = match key { Some(x) => x, None => continue };
+                        let ci = self.issuers.iter().position(|x| *x == claim.issuer).unwrap_or(99);
+                        // the issuer's current answer for this claim
+                        let args: Vec<Val> = (idn.clone(), claim.topic, claim.scheme, claim.signature.clone(), claim.data.clone()).into_val(&e);
+                        let valid = ci < self.issuers.len() && self.try_call(&self.issuers[ci], "is_claim_valid", args).is_some();
+                        cs.push(ClaimRec { k_issuer: ki, k_topic: kt, c_topic: claim.topic, c_issuer: ci, valid });
+                    }
+                }
+                if !cs.is_empty() { iw.claims.push((k, cs)); }
+            }
+            self.world = iw;
+            self.stale = false;
+        }
+
+        fn sobs(&mut self) -> std::string::String {
+            let t = self.w.observe();
+            let c = self.c.observe();
+            format!("(mkSObs {} {})", t, c)
+        }
+
+        /// a call of the token
+        pub fn tok(&mut self, out: &mut Out, op: &Op, auths: &[usize], deny: &[usize]) -> bool {
+            if self.stale { self.read_world(); }
+            self.c.prepare(deny);
+            let (ok, outcome) = self.w.run_op(op, auths);
+            if let Op::Advance(_) = op { self.stale = true; }
+            let obs = self.sobs();
+            let au: std::vec::Vec<_> = auths.iter().map(|&i| n(i as u64)).collect();
+            let dn: std::vec::Vec<_> = deny.iter().map(|&i| n(MOD0 + i as u64)).collect();
+            let call = format!("(STok ({}) {} {} {})", op.coq(), list(&au), list(&dn), self.world.coq());
+            let gate = match *op {
+                Op::Transfer(f, t, _) | Op::TransferFrom(_, f, t, _) => {
+                    if !self.world.verified(f) { "/sender-unverified" } else if !self.world.verified(t) { "/receiver-unverified" }
+                    else if deny.iter().any(|d| self.c.mods[3].contains(d)) { "/module-refuses" } else { "" }
+                }
+                _ => "",
+            };
+            out.case(&format!("s.{}/{}{}", op.kind(), if ok { "ok" } else { "fail" }, gate), &call);
+            self.items.push(format!("SI {} {} {}", call, outcome, obs));
+            ok
+        }
+        pub fn tok_plain(&mut self, out: &mut Out, op: &Op) -> bool {
+            let au: std::vec::Vec<usize> = op.signer().into_iter().collect();
+            self.tok(out, op, &au, &[])
+        }
+
+        /// an administrative call of the compliance contract
+        pub fn cmp(&mut self, out: &mut Out, op: &COp, operator_signs: bool) -> bool {
+            let au = match *op {
+                COp::Add(_, _, o) | COp::Remove(_, _, o) | COp::Bind(_, o) | COp::Unbind(_, o) if operator_signs => vec![Who::Party(o)],
+                _ => vec![],
+            };
+            let ok = self.c.exec(out, op, &au, &[], None);
+            self.c.items.clear();
+            let (call, outcome, _) = self.c.last.clone();
+            let obs = self.sobs();
+            self.items.push(format!("SI (SCmp {}) {} {}", call, outcome, obs));
+            ok
+        }
+
+        /// an edit of an identity registry (its effect is read back before the next token call)
+        pub fn edit(&mut self, out: &mut Out, ed: &Edit) -> bool {
+            let e = self.w.e.clone();
+            let tv = |ts: &std::vec::Vec<u32>| { let mut v: Vec<u32> = Vec::new(&e); for &t in ts { v.push_back(t); } v };
+            let r = match ed {
+                Edit::AddTopic(t) => self.try_call(&self.cti, "add_claim_topic", (*t,).into_val(&e)),
+                Edit::RemoveTopic(t) => self.try_call(&self.cti, "remove_claim_topic", (*t,).into_val(&e)),
+                Edit::AddIssuer(i, ts) => self.try_call(&self.cti, "add_trusted_issuer", (self.issuers[*i].clone(), tv(ts)).into_val(&e)),
+                Edit::RemoveIssuer(i) => self.try_call(&self.cti, "remove_trusted_issuer", (self.issuers[*i].clone(),).into_val(&e)),
+                Edit::UpdateIssuer(i, ts) => self.try_call(&self.cti, "update_issuer_claim_topics", (self.issuers[*i].clone(), tv(ts)).into_val(&e)),
+                Edit::AddIdentity(a, k) => self.try_call(&self.irs, "add_identity", (self.w.addrs[*a].clone(), self.idents[*k].clone()).into_val(&e)),
+                Edit::RemoveIdentity(a) => self.try_call(&self.irs, "remove_identity", (self.w.addrs[*a].clone(),).into_val(&e)),
+                Edit::ModifyIdentity(a, k) => self.try_call(&self.irs, "modify_identity", (self.w.addrs[*a].clone(), self.idents[*k].clone()).into_val(&e)),
+                Edit::RecoverIdentity(a, b2) => self.try_call(&self.irs, "recover_identity", (self.w.addrs[*a].clone(), self.w.addrs[*b2].clone()).into_val(&e)),
+                Edit::AddClaim(k, t, i) => self.try_call(&self.idents[*k], "add_claim", (*t, self.issuers[*i].clone()).into_val(&e)),
+                Edit::RemoveClaim(k, t, i) => {
+                    let id = idc::generate_claim_id(&e, &self.issuers[*i], *t);
+                    self.try_call(&self.idents[*k], "remove_claim", (id,).into_val(&e))
+                }
+                Edit::Revoke(i, k, t, rv) => self.try_call(&self.issuers[*i], "set_revoked", (self.idents[*k].clone(), *t, *rv).into_val(&e)),
+            };
+            self.stale = true;
+            self.c.prepare(&[]);
+            let obs = self.sobs();
+            let kind = format!("{:?}", ed);
+            let kind = kind.split('(').next().unwrap_or("edit").to_string();
+            out.label(&format!("s.edit/{}/{}", kind, if r.is_some() { "ok" } else { "fail" }));
+            self.items.push(format!("SI SEdit (Ok None) {}", obs));
+            r.is_some()
+        }
+
+        pub fn finish(self, out: &mut Out, desc: &str) {
+            let univ: std::vec::Vec<_> = (0..self.w.nu()).map(|i| n(ACC0 + i as u64)).collect();
+            let term = format!("mkSTrace (Build_hostcfg {} {}) (Build_ccfg {}) {} {} {}", self.w.min_temp, self.w.max_ttl,
+                stellar_tokens::rwa::compliance::MAX_MODULES, list(&univ), n(TOK0), list(&self.items));
+            let k = self.items.len();
+            if self.w.trapped_reads + self.c.trapped_reads > 0 { out.label("observation/getter-trapped"); }
+            let _ = (IDN0, ISS0);
+            out.trace(desc, term, k);
+        }
+
+        /// a working stack: collaborators linked, modules 1,0 on CanTransfer / 0,2 on Transferred / 2 on CanCreate /
+        /// 1 on Created / 0 on Destroyed, token bound; topics 1 and 2 required, issuer 0 trusted for 1 and 2,
+        /// issuer 1 for 2; accounts 0,1,2 have identities 0,1,2 with claims; account 3 (the operator) has none
+        pub fn standard(out: &mut Out, min_temp: u32, max_ttl: u32) -> SWorld {
+            let adm = 3usize;
+            let mut s = SWorld::new(min_temp, max_ttl);
+            s.tok_plain(out, &Op::Advance(3));
+            s.tok_plain(out, &Op::SetCompliance(adm));
+            s.tok_plain(out, &Op::SetIdv(adm));
+            for (h, md) in [(3usize, 1usize), (3, 0), (0, 0), (0, 2), (4, 2), (1, 1), (2, 0)] { s.cmp(out, &COp::Add(h, md, adm), true); }
+            s.cmp(out, &COp::Bind(0, adm), true);
+            s.edit(out, &Edit::AddTopic(1));
+            s.edit(out, &Edit::AddTopic(2));
+            s.edit(out, &Edit::AddIssuer(0, vec![1, 2]));
+            s.edit(out, &Edit::AddIssuer(1, vec![2]));
+            for a in 0..3usize {
+                s.edit(out, &Edit::AddIdentity(a, a));
+                s.edit(out, &Edit::AddClaim(a, 1, 0));
+                s.edit(out, &Edit::AddClaim(a, 2, if a == 1 { 1 } else { 0 }));
+            }
+            s
+        }
+    }
+
+    pub fn directed(out: &mut Out) {
+        let adm = 3usize;
+        // every way a gate answer can change under a holder who already has tokens
+        {
+            let mut s = SWorld::standard(out, 1, MAXTTL);
+            s.tok_plain(out, &Op::Mint(0, 100, adm));
+            s.tok_plain(out, &Op::Mint(3, 5, adm));                 // the operator has no identity
+            s.tok_plain(out, &Op::Transfer(0, 1, 10));
+            s.tok_plain(out, &Op::Approve(0, 2, 50, 100_000));
+            s.tok_plain(out, &Op::TransferFrom(2, 0, 1, 5));
+            // the sender's claim is revoked after it received its tokens
+            s.edit(out, &Edit::Revoke(0, 0, 1, true));
+            s.tok_plain(out, &Op::Transfer(0, 1, 10));
+            s.tok_plain(out, &Op::TransferFrom(2, 0, 1, 5));
+            s.tok_plain(out, &Op::Transfer(1, 0, 1));               // ... and it cannot receive either
+            s.tok_plain(out, &Op::Mint(0, 1, adm));
+            s.tok_plain(out, &Op::Forced(0, 1, 1, adm));            // the supervisor can still move
+            s.edit(out, &Edit::Revoke(0, 0, 1, false));
+            s.tok_plain(out, &Op::Transfer(0, 1, 10));
+            // the claim is removed from the identity
+            s.edit(out, &Edit::RemoveClaim(0, 2, 0));
+            s.tok_plain(out, &Op::Transfer(0, 1, 10));
+            s.edit(out, &Edit::AddClaim(0, 2, 1));                  // a claim of the other trusted issuer will do
+            s.tok_plain(out, &Op::Transfer(0, 1, 10));
+            // the issuer is de-listed for a topic / altogether
+            s.edit(out, &Edit::UpdateIssuer(1, vec![1]));
+            s.tok_plain(out, &Op::Transfer(0, 1, 10));
+            s.edit(out, &Edit::UpdateIssuer(1, vec![1, 2]));
+            s.tok_plain(out, &Op::Transfer(0, 1, 10));
+            s.edit(out, &Edit::RemoveIssuer(1));
+            s.tok_plain(out, &Op::Transfer(0, 1, 10));              // 0's topic-2 claim and 1's topic-2 claim are worthless now
+            s.tok_plain(out, &Op::Transfer(2, 0, 0));
+            s.edit(out, &Edit::AddIssuer(1, vec![2]));
+            // the identity is removed from the registry
+            s.edit(out, &Edit::RemoveIdentity(1));
+            s.tok_plain(out, &Op::Transfer(0, 1, 10));
+            s.tok_plain(out, &Op::Transfer(1, 0, 1));
+            s.edit(out, &Edit::AddIdentity(1, 1));
+            s.tok_plain(out, &Op::Transfer(1, 0, 1));
+            // the required topics change
+            s.edit(out, &Edit::AddTopic(3));                        // nobody is trusted for it: nobody is verified
+            s.tok_plain(out, &Op::Transfer(0, 1, 1));
+            s.edit(out, &Edit::UpdateIssuer(0, vec![1, 2, 3]));
+            s.tok_plain(out, &Op::Transfer(0, 1, 1));
+            s.edit(out, &Edit::AddClaim(0, 3, 0));
+            s.edit(out, &Edit::AddClaim(1, 3, 0));
+            s.tok_plain(out, &Op::Transfer(0, 1, 1));
+            s.edit(out, &Edit::RemoveTopic(3));
+            s.edit(out, &Edit::RemoveTopic(2));
+            s.tok_plain(out, &Op::Transfer(0, 1, 1));
+            s.finish(out, "stack/directed/identity-gate");
+        }
+        // compliance modules and binding
+        {
+            let mut s = SWorld::standard(out, 16, 1_000_000);
+            s.tok_plain(out, &Op::Mint(0, 100, adm));
+            s.tok(out, &Op::Transfer(0, 1, 10), &[0], &[0]);        // the second CanTransfer module refuses
+            s.tok(out, &Op::Transfer(0, 1, 10), &[0], &[1]);        // the first one refuses: the second is not asked
+            s.tok(out, &Op::Transfer(0, 1, 10), &[0], &[2]);        // a module that is only notified cannot refuse
+            s.tok(out, &Op::Mint(1, 10, adm), &[adm], &[2]);        // CanCreate module refuses
+            s.tok(out, &Op::Mint(1, 10, adm), &[adm], &[0, 1]);
+            s.cmp(out, &COp::Remove(3, 0, adm), true);
+            s.tok(out, &Op::Transfer(0, 1, 10), &[0], &[0]);        // no longer registered: its refusal does not count
+            s.cmp(out, &COp::Add(3, 2, adm), true);
+            s.tok(out, &Op::Transfer(0, 1, 10), &[0], &[2]);
+            s.cmp(out, &COp::Remove(0, 0, adm), false);             // not signed by the operator
+            s.cmp(out, &COp::Add(0, 1, adm), true);
+            s.tok_plain(out, &Op::Transfer(0, 1, 10));              // three modules notified, in order
+            s.tok_plain(out, &Op::Burn(1, 3, adm));
+            s.tok_plain(out, &Op::Forced(1, 2, 3, adm));
+            s.cmp(out, &COp::Unbind(0, adm), true);                 // the compliance contract no longer accepts the token's notifications
+            s.tok_plain(out, &Op::Transfer(0, 1, 10));
+            s.tok_plain(out, &Op::Mint(0, 1, adm));
+            s.tok_plain(out, &Op::Burn(0, 1, adm));
+            s.tok_plain(out, &Op::Forced(0, 1, 1, adm));
+            s.tok_plain(out, &Op::Freeze(0, 1, adm));               // nothing to notify: unaffected
+            s.cmp(out, &COp::Bind(0, adm), true);
+            s.tok_plain(out, &Op::Transfer(0, 1, 10));
+            s.finish(out, "stack/directed/compliance-gate");
+        }
+        // recovery through the registry, freezes, pause, long gaps
+        for (min_temp, max_ttl, gap) in [(1u32, MAXTTL, 600_000u32), (16, 5000, 4_000_000)] {
+            let mut s = SWorld::standard(out, min_temp, max_ttl);
+            s.tok_plain(out, &Op::Mint(0, 100, adm));
+            s.tok_plain(out, &Op::Mint(1, 50, adm));
+            s.tok_plain(out, &Op::Freeze(0, 10, adm));
+            s.tok_plain(out, &Op::Freeze(1, 50, adm));
+            s.tok_plain(out, &Op::SetFrozen(0, true, adm));
+            s.tok_plain(out, &Op::Recover(0, 1, adm));              // no recovery registered
+            s.edit(out, &Edit::RemoveIdentity(1));
+            s.edit(out, &Edit::RecoverIdentity(0, 1));              // account 0 lost: its identity moves to account 1
+            s.tok_plain(out, &Op::Recover(0, 2, adm));              // not the registered target
+            s.tok_plain(out, &Op::Advance(gap));
+            s.tok_plain(out, &Op::Recover(0, 1, adm));              // 100/10 frozen + flag on top of 50/50 frozen
+            s.tok_plain(out, &Op::Recover(0, 1, adm));              // nothing left
+            s.tok_plain(out, &Op::Transfer(1, 2, 1));               // 1 is address-frozen now
+            s.tok_plain(out, &Op::SetFrozen(1, false, adm));
+            s.tok_plain(out, &Op::Transfer(1, 2, 90));
+            s.tok_plain(out, &Op::Transfer(1, 2, 91));
+            s.tok_plain(out, &Op::Pause(adm));
+            s.tok_plain(out, &Op::Advance(gap));
+            s.tok_plain(out, &Op::Transfer(2, 1, 1));
+            s.tok_plain(out, &Op::Unpause(adm));
+            s.tok_plain(out, &Op::Transfer(2, 1, 1));
+            s.finish(out, &format!("stack/directed/recovery-gap{}", gap));
+        }
+    }
+
+    pub fn random_trace(out: &mut Out, rng: &mut Rng, idx: usize, len: usize) {
+        let adm = 3usize;
+        let (min_temp, max_ttl) = match rng.below(3) { 0 => (1, MAXTTL), 1 => (16, 1_000_000), _ => (16, 5000) };
+        let mut s = SWorld::standard(out, min_temp, max_ttl);
+        for a in 0..3usize { if rng.chance(3, 4) { let m = 10 + rng.below(200) as i128; s.tok_plain(out, &Op::Mint(a, m, adm)); } }
+        let start = s.items.len();
+        while s.items.len() < start + len {
+            let ad = |rng: &mut Rng| rng.below(4) as usize;
+            let (x, y, sp) = (ad(rng), ad(rng), ad(rng));
+            let x = if rng.chance(2, 3) { (0..4).filter(|&i| s.w.m.bal[i] > 0).nth(rng.below(2) as usize).unwrap_or(x) } else { x };
+            let mut deny: std::vec::Vec<usize> = vec![];
+            for i in 0..3 { if rng.chance(1, 10) { deny.push(i); } }
+            match rng.below(100) {
+                0..=21 => { let a = pick_amount(rng, &[s.w.free(x), s.w.m.bal[x]]); let op = Op::Transfer(x, y, a); s.tok(out, &op, &[x], &deny); }
+                22..=33 => { let a = pick_amount(rng, &[s.w.free(x), s.w.allowance(x, sp)]); let op = Op::TransferFrom(sp, x, y, a); s.tok(out, &op, &[sp], &deny); }
+                34..=39 => { let l = s.w.m.now + 1 + rng.below(50_000) as u32; let a = pick_amount(rng, &[s.w.m.bal[x], 50]); s.tok_plain(out, &Op::Approve(x, sp, a, l.min(s.w.m.now + max_ttl - 1))); }
+                40..=45 => { let a = pick_amount(rng, &[100]); let op = Op::Mint(y, a, adm); s.tok(out, &op, &[adm], &deny); }
+                46..=48 => { let a = pick_amount(rng, &[s.w.m.bal[x]]); s.tok_plain(out, &Op::Burn(x, a, adm)); }
+                49..=52 => { let a = pick_amount(rng, &[s.w.free(x), s.w.m.bal[x]]); s.tok_plain(out, &Op::Forced(x, y, a, adm)); }
+                53..=55 => { s.tok_plain(out, &Op::Recover(x, y, adm)); }
+                56..=58 => { s.tok_plain(out, &Op::SetFrozen(y, rng.chance(1, 2), adm)); }
+                59..=61 => { let a = pick_amount(rng, &[s.w.free(x)]); s.tok_plain(out, &Op::Freeze(x, a, adm)); }
+                62..=63 => { let a = pick_amount(rng, &[s.w.m.frz[x]]); s.tok_plain(out, &Op::Unfreeze(x, a, adm)); }
+                64 => { s.tok_plain(out, &Op::Pause(adm)); }
+                65 => { s.tok_plain(out, &Op::Unpause(adm)); }
+                66..=67 => { let g = long_gap(rng); s.tok_plain(out, &Op::Advance(g)); }
+                68..=72 => { s.cmp(out, &COp::Add(rng.below(5) as usize, rng.below(3) as usize, adm), !rng.chance(1, 8)); }
+                73..=76 => { s.cmp(out, &COp::Remove(rng.below(5) as usize, rng.below(3) as usize, adm), !rng.chance(1, 8)); }
+                77 => { s.cmp(out, &COp::Unbind(0, adm), true); }
+                78..=79 => { s.cmp(out, &COp::Bind(0, adm), true); }
+                _ => {
+                    let (k, i, t) = (rng.below(3) as usize, rng.below(2) as usize, *rng.pick(&TOPICS));
+                    let ed = match rng.below(14) {
+                        0 => Edit::AddTopic(t),
+                        1 => Edit::RemoveTopic(t),
+                        2 => Edit::AddIssuer(i, TOPICS.iter().cloned().filter(|_| rng.chance(2, 3)).collect()),
+                        3 => Edit::RemoveIssuer(i),
+                        4 => Edit::UpdateIssuer(i, TOPICS.iter().cloned().filter(|_| rng.chance(2, 3)).collect()),
+                        5 => Edit::AddIdentity(ad(rng), k),
+                        6 => Edit::RemoveIdentity(ad(rng)),
+                        7 => Edit::ModifyIdentity(ad(rng), k),
+                        8 => Edit::RecoverIdentity(x, y),
+                        9 | 10 => Edit::AddClaim(k, t, i),
+                        11 => Edit::RemoveClaim(k, t, i),
+                        _ => Edit::Revoke(i, k, t, rng.chance(2, 3)),
+                    };
+                    s.edit(out, &ed);
+                }
+            }
+        }
+        s.finish(out, &format!("stack/random/{}", idx));
+    }
+}
+
 fn main() {
-    let mut out = Out::new("From SC Require Import Lib.Prelude Lib.Int Lib.Host Model.Rwa Model.RwaCompliance Model.RwaIdentity Run.C04Compliance Run.C04Identity Run.C04.\nOpen Scope Z_scope.", "check_all");
+    let mut out = Out::new("From SC Require Import Lib.Prelude Lib.Int Lib.Host Model.Rwa Model.RwaCompliance Model.RwaIdentity Run.C04Compliance Run.C04Identity Run.C04Stack Run.C04.\nOpen Scope Z_scope.", "check_all");
     out.per_shard(700);
     let mut rng = Rng::new(out.cfg.seed);
     let thorough = out.cfg.thorough;
@@ -1797,5 +2289,9 @@ fn main() {
     idl::directed(&mut out);
     let nit = if thorough { 400 * scale } else { 30 * scale };
     for i in 0..nit { idl::random_trace(&mut out, &mut rng, i, 40); }
+    // fourth family: the whole stack of real contracts, checked against the composition of the three models
+    stack::directed(&mut out);
+    let nst = if thorough { 500 * scale } else { 36 * scale };
+    for i in 0..nst { stack::random_trace(&mut out, &mut rng, i, 34); }
     out.finish();
 }
